@@ -14,22 +14,24 @@ type GenOpts struct {
 	MaxRecords int // per source
 	MaxProcs   int // per chain
 
-	Nacks       bool // destination nacks
-	ProcErrors  bool
-	Filters     bool
-	Splits      bool // v2 only
-	Conditions  bool
-	Workers     bool // v1 parallel processors
-	ReadFaults  bool // transient source failures (recovery)
-	StreamErrs  bool // destination stream errors
-	DLQFaults   bool // DLQ nack / stream error
-	StoreFaults bool
-	GateCommits bool
-	GateAcks    bool // the source plugin takes its acks at scheduler-chosen instants
-	Holds       bool // a destination or the DLQ stops answering at some record (first run only)
-	Hostile     bool // C09: one hostile reply shape of a connector or processor per case
-	FreeSched   int  // percentage of cases that run with the boundary scheduler switched off
-	GateCalls   int  // percentage of cases in which plugin Open/Stop/Teardown answer at scheduled instants
+	Nacks          bool // destination nacks
+	ProcErrors     bool
+	Filters        bool
+	Splits         bool // v2 only
+	Conditions     bool
+	Workers        bool // v1 parallel processors
+	ReadFaults     bool // transient source failures (recovery)
+	StreamErrs     bool // destination stream errors
+	DLQFaults      bool // DLQ nack / stream error
+	StoreFaults    bool
+	AckSendFaults  int  // percentage of cases with transient / permanent failures of the host's ack Send
+	AckSendNoBreak bool // only transient failures (bursts below the retry bound), never a broken stream
+	GateCommits    bool
+	GateAcks       bool // the source plugin takes its acks at scheduler-chosen instants
+	Holds          bool // a destination or the DLQ stops answering at some record (first run only)
+	Hostile        bool // C09: one hostile reply shape of a connector or processor per case
+	FreeSched      int  // percentage of cases that run with the boundary scheduler switched off
+	GateCalls      int  // percentage of cases in which plugin Open/Stop/Teardown answer at scheduled instants
 
 	// DLQ window: if Unlimited the window never stops the pipeline.
 	UnlimitedDLQ bool
@@ -313,6 +315,13 @@ func GenCase(t *rapid.T, o GenOpts) *Case {
 			c.Sources[si].ReadFaultInst = rapid.IntRange(1, 2).Draw(t, "rfinst")
 		}
 	}
+	if o.AckSendFaults > 0 && chance(t, "acksendfault", o.AckSendFaults) {
+		si := Uniform(t, "asfsrc", nsrc)
+		GenAckSendFaults(t, &c.Sources[si])
+		if o.AckSendNoBreak {
+			c.Sources[si].AckSendBreakAtP1 = 0
+		}
+	}
 	if o.StoreFaults && chance(t, "storefault", 40) {
 		kind := FaultKind(pickStr(t, "sfkind", []string{string(FaultSet), string(FaultCommit), string(FaultNewTxn)}))
 		f := Fault{Kind: kind, Index: rapid.IntRange(0, 12).Draw(t, "sfidx")}
@@ -374,4 +383,25 @@ func GenCase(t *rapid.T, o GenOpts) *Case {
 		})
 	}
 	return c
+}
+
+// GenAckSendFaults scripts failures of the host's ack Send for one source: 1-3 bursts of 1-3
+// consecutive failing attempts (always far below the engine's documented retry bound of 12, so
+// every such ack must still be delivered, in order), and in a quarter of the cases a stream that
+// is broken for good from some attempt on (first plugin instance only).
+func GenAckSendFaults(t *rapid.T, s *SourceSpec) {
+	nb := 1 + Uniform(t, "asfbursts", 3)
+	at := 0
+	for b := 0; b < nb; b++ {
+		at += Uniform(t, "asfgap", 4)
+		l := 1 + Uniform(t, "asflen", 3)
+		for i := 0; i < l; i++ {
+			s.AckSendFail = append(s.AckSendFail, at)
+			at++
+		}
+		at++ // at least one successful attempt between two bursts
+	}
+	if chance(t, "asfbreak", 25) {
+		s.AckSendBreakAtP1 = 1 + Uniform(t, "asfbreakat", 8)
+	}
 }
